@@ -106,8 +106,8 @@ def render(prog, variant=0, netcdf=False):
     """-> (source, line table {lineno: (cmd index, param name or '')})"""
     lines = []
     table = {}
-    if variant % 2:
-        lines += ["# generated model", ""]
+    if variant % 2:        # the file may begin with blank lines (1, 5) or with a comment (3)
+        lines += ["", "  ", "# generated model", ""] if variant in (1, 5) else ["# generated model", ""]
     for ci, (res, cname, args) in enumerate(prog):
         if variant % 3 == 1 and ci:
             lines.append("")
@@ -299,7 +299,7 @@ def run_check(chk, prop, tier, clause_prefixes, libsets, allkinds=False, keep=No
                     "PrepassAll=TRUE CleanersTotal=TRUE; Decl generated from live classes")
         variants = [core.SEED % 6] if tier == "quick" else [(core.SEED + k) % 6 for k in range(3)]
         if prop == "C11":
-            variants = variants + [6]
+            variants = sorted(set(variants + [1, 6]))
         jobs, res = run_programs(progs, variants, libs, netcdf)
         chk.cov["evaluations"] += len(res)
         records = [rec for rec, src in res]
@@ -384,6 +384,13 @@ RUNTIME_SCENARIOS = [
     ("syntax-list-mixes-pair", "A = EEMSRead(InFileName = in.csv, InFieldName = a, Metadata = [1, a:b])\n", {}),
     ("syntax-unbalanced", "A = EEMSRead(InFileName = in.csv, InFieldName = a\n", {}),
     ("syntax-bad-char", "A = EEMSRead(InFileName = in.csv, InFieldName = \"a)\n", {}),
+    ("huge-int-literal", "A = EEMSRead(InFileName = in.csv, InFieldName = a, MissingVal = %s)\n" % ("9" * 5000), {}),
+    ("huge-float-literal", "A = EEMSRead(InFileName = in.csv, InFieldName = a, MissingVal = -1.%se400)\n" % ("9" * 5000), {}),
+    ("eems2-list-as-result-name", "READ(InFileName = in.csv, InFieldName = [a])\n", {}),
+    ("eems2-list-as-new-field-name", "READ(InFileName = in.csv, InFieldName = a, NewFieldName = [b, c])\n", {}),
+    ("eems2-pair-list-as-new-field-name", "READ(InFileName = in.csv, InFieldName = a, NewFieldName = [b: c])\n", {}),
+    ("eems2-no-result-name", "READ(InFileName = in.csv, InFieldName = a)\nSUM(InFieldNames = [a, a])\n", {}),
+    ("eems2-number-as-new-field-name", "READ(InFileName = in.csv, InFieldName = a, NewFieldName = 5)\nCOPYFIELD(InFieldName = 5, NewFieldName = c)\n", {}),
     ("ok-model", "A = EEMSRead(InFileName = in.csv, InFieldName = a)\nF = CvtToFuzzy(InFieldName = A)\nW = EEMSWrite(OutFileName = out.csv, OutFieldNames = [A, F])\n", {}),
 ]
 
@@ -515,6 +522,7 @@ FUZZ_BASE = [
     "READ(InFileName = in.csv, InFieldName = a)\nCVTTOFUZZY(InFieldName = a, NewFieldName = f, TrueThreshold = 2, FalseThreshold = 0)\n",
     "X = Sum(InFieldNames = [[A], ['b \\' c'], C:\\x y\\z, 3d, -1, +.5, 1.e3])\r\nY = Copy(\r\n  InFieldName = X\r\n)\r\n",
 ]
+FUZZ_VALUES = ["[a]", "[]", "[a: b]", "9" * 4400, "-" + "1" * 4400, "1e400", "''", "True", "[[a]]", "a b", "0x1F", "." + "3" * 4400, "a" * 5000, "[" * 200 + "]" * 200]
 FUZZ_CHARS = list("()[]=,:#\"'\\ \n\t\r.-+eE09aZ_") + ["\u00e9", "\u4e2d", "\U0001f600", "\x00", "\x0c", "True", "False", "[[", "]]", ",,", "==", "\\\"", "1e", "-"]
 
 
@@ -532,7 +540,14 @@ def text_fuzz(chk, rounds):
         for _ in range(rng.randint(1, 3)):
             pos = rng.randint(0, len(t))
             op = rng.random()
-            if op < 0.35:
+            if op < 0.12:        # replace one argument value by a value of another kind / an extreme literal
+                eqs = [m.end() for m in re.finditer(r"= *", t)]
+                if eqs:
+                    a = rng.choice(eqs)
+                    m = re.compile(r"[,)\n]").search(t, a)
+                    b = m.start() if m else len(t)
+                    t = t[:a] + rng.choice(FUZZ_VALUES) + t[b:]
+            elif op < 0.35:
                 t = t[:pos] + rng.choice(FUZZ_CHARS) + t[pos:]
             elif op < 0.7:
                 t = t[:pos] + t[pos + rng.randint(1, 3):]
@@ -566,6 +581,8 @@ def check_C13(tier):
     for k in range(core.SEED % step, len(res), step):
         rec, src = res[k]
         pr = progs[jobs[k][0] // max(1, len(res) // len(progs))]
+        if pr["tcmd"] == "Extras":        # the command-line tool only knows the built-in libraries
+            continue
         cjobs.append((len(cjobs), "matrix/%s/%s" % (pr["tcmd"], pr["fault"][0]), src, {}, False))
     for name, src, extra in RUNTIME_SCENARIOS:
         cjobs.append((len(cjobs), name, src, extra, False))
